@@ -185,7 +185,9 @@ impl<W: Write> WriteBox<&mut W> for TrunBox {
         if let Some(v) = self.first_sample_flags {
             writer.write_u32::<BigEndian>(v)?;
         }
-        if self.sample_count != self.sample_sizes.len() as u32 {
+        if TrunBox::FLAG_SAMPLE_SIZE & self.flags > 0
+            && self.sample_count != self.sample_sizes.len() as u32
+        {
             return Err(Error::InvalidData("sample count out of sync"));
         }
         for i in 0..self.sample_count as usize {
